@@ -236,3 +236,7 @@ pub(super) mod parser {
         .parse(input)
     }
 }
+
+#[cfg(kani)]
+#[path = "/verif/kani/sel_pseudo.rs"]
+pub(super) mod kani_verif;
